@@ -65,6 +65,8 @@ def make_scenarios(ctx, count):
     for i in range(count):
         rng = G.rng_for(ctx.seed, "C02", i)
         cfg = G.rand_cfg(rng)
+        if i % 29 == 11:
+            cfg["mtu"] = rng.choice(G.MTUS_TINY)      # very small MTU: whatever is sent must still fit, or nothing is sent
         glob = G.rand_global(rng)
         if rng.random() < 0.3:
             # some platform getters fail (the set of failing getters is configuration, the output must still be a
